@@ -137,7 +137,16 @@ func init() {
 				ok1, _ := mustPrecede(f, inc, w.callPred("types#ValidatorSet.shiftByAvgProposerPriority"))
 				ok2, _ := mustPrecede(f, inc, w.callPred("types#ValidatorSet.RescalePriorities"))
 				c.Check(ok1 && ok2, fk+" :: rescale and centre before the rounds", w.ipos(inc), "ordered", "rounds can run before rescaling/centring")
-				c.guards(f, inc, fk+" :: one round per requested time", 0, guardCmp("round counter below times", `phi\(.*\)`, "<", "times"))
+				// `times` iterations, whatever the form of the loop (counting up or down; the step possibly in a
+				// helper of its own): the site in this function that stands for the step
+				var site ssa.Instruction = inc
+				if inc.Parent() != f {
+					if ch := siteChain(f, inc); ch != nil {
+						site = ch[len(ch)-1].at
+					}
+				}
+				trips, okT := unitLoopTrips(w, site)
+				c.Check(okT && trips == "times", fk+" :: one round per requested time <= round counter below times", w.ipos(inc), "`times` iterations", "the step runs "+trips+" times")
 			}
 			got := storedFields(w, f, "ValidatorSet")
 			c.Check(strings.Contains(got["Proposer"], pick), fk+" :: proposer is the pick of the last round", w.pos(f.Pos()), got["Proposer"], "Proposer set to "+got["Proposer"])
@@ -489,7 +498,7 @@ func init() {
 		// the rotation step is recognised by its selection of the validator with the most priority (in the step
 		// helper, or in the loop when the helper was inlined)
 		var steps []ssa.CallInstruction
-		for _, dc := range w.deepCallsTo(f, 1, "types#ValidatorSet.getValWithMostPriority") {
+		for _, dc := range w.deepCallsTo(f, 3, "types#ValidatorSet.getValWithMostPriority") {
 			steps = append(steps, dc.site)
 		}
 		if !c.Check(len(steps) == 1, fk+" :: one rotation step site", w.pos(f.Pos()), "1", fmt.Sprintf("%d", len(steps))) {
@@ -501,14 +510,31 @@ func init() {
 		h := loopOf(step)
 		for _, spec := range []string{"types#ValidatorSet.RescalePriorities", "types#ValidatorSet.shiftByAvgProposerPriority"} {
 			name := spec[strings.LastIndex(spec, ".")+1:]
-			calls := w.callsTo(f, spec)
-			inLoop := len(calls) == 1 && h != nil && loopBlocks(h)[calls[0].Block()]
+			dcs := w.deepCallsTo(f, 3, spec)
+			inLoop := len(dcs) == 1 && h != nil && loopBlocks(h)[dcs[0].site.Block()]
 			c.Check(inLoop, fk+" :: "+name+" is part of every step", w.pos(f.Pos()), "inside the loop over `times`", name+" runs once per call, not once per step: advancing by a+b differs from advancing by a and then by b, so a node that skips rounds and a node that walks them disagree on the proposer")
 			if inLoop {
-				// it precedes the rotation within an iteration: from the loop's first body block the step is not
-				// reachable without passing it
-				okp := calls[0].Block().Dominates(step.Block()) && (calls[0].Block() != step.Block() || instrIndex(calls[0]) < instrIndex(step))
-				c.Check(okp, fk+" :: "+name+" precedes the rotation in a step", w.ipos(calls[0]), "before incrementProposerPriority", "after the rotation")
+				// it precedes the rotation within an iteration (in this function, or — when both live in one
+				// helper that is the loop's body — inside that helper)
+				var okp bool
+				if dcs[0].site == step {
+					// both live behind the same site of the loop: order them inside the helper that holds the
+					// rescale/centre call
+					g := dcs[0].call.Parent()
+					var rc ssa.Instruction
+					if rots := w.deepCallsTo(g, 3, "types#ValidatorSet.getValWithMostPriority"); len(rots) == 1 {
+						rc = rots[0].site
+					}
+					if rc == nil {
+						c.Check(false, fk+" :: "+name+" precedes the rotation in a step", w.ipos(dcs[0].site), "before incrementProposerPriority", "the rotation is not behind the helper that rescales")
+						continue
+					}
+					okp = rc.Parent() == g && dcs[0].call.Block().Dominates(rc.Block()) && (dcs[0].call.Block() != rc.Block() || instrIndex(dcs[0].call) < instrIndex(rc))
+				} else {
+					a, b := dcs[0].site, step
+					okp = a.Block().Dominates(b.Block()) && (a.Block() != b.Block() || instrIndex(a) < instrIndex(b))
+				}
+				c.Check(okp, fk+" :: "+name+" precedes the rotation in a step", w.ipos(dcs[0].site), "before incrementProposerPriority", "after the rotation")
 			}
 		}
 	})
